@@ -1,7 +1,7 @@
 """C03 — event signatures: per-version signer rules, required-signer table, verify_event / hash_and_sign_event pipelines."""
 import itertools
 import re
-from .. import dex as D, world as W
+from .. import dex as D, world as W, mir as M
 from . import tables as T, util as U
 from .C05 import m_clone
 
@@ -118,6 +118,23 @@ def run(ctx):
     # returned set is the one inserted into
     ctx.check(all(D.show(e[1][0]) == D.show(U.payload(p.ret)) for p in okp for e in p.effects), "C03.signers", "C03.signers:returned-set",
               w.where(f), bad_msg="the returned set is not the set the servers were inserted into")
+
+    # the requirements are a conjunction: the set only grows. `insert(a); ...; remove(b)` drops a server that is required for another reason
+    # whenever a == b (the sender's server usually IS the event ID's server), which no scenario with distinct symbolic servers shows
+    GROW = {"new", "default", "insert", "extend", "from", "from_iter", "contains", "len", "is_empty", "iter", "clone", "append"}
+    SHRINK = {"remove", "take", "retain", "clear", "pop_first", "pop_last", "split_off", "drain", "extract_if", "difference", "intersection", "replace"}
+    fam = [f] + [g for g in w.crates["ruma_signatures"].all_fns() if g["path"].startswith(f["path"] + "::{closure") and "body" in g]
+    set_calls = sorted({M.callee_name(c).rsplit("::", 1)[-1] for g in fam for body in M.all_bodies(g) for _, c in M.calls(body)
+                        if re.search(r"BTreeSet|HashSet", M.callee_name(c).rsplit("::", 1)[0])})
+    shrink = [c for c in set_calls if c in SHRINK]
+    other = [c for c in set_calls if c not in SHRINK and c not in GROW]
+    if shrink:
+        ctx.violation("C03.signers", "C03.signers:monotone", w.where(f), f"servers_to_check_signatures takes servers out of the required set again ({shrink}): a server "
+                      f"required for one reason (event ID's server in v1-v2, authorising user's server) is dropped when it equals the server being removed")
+    elif other:
+        ctx.unrecognised("C03.signers", "C03.signers:monotone", w.where(f), f"set operations {other} are not known to only add requirements")
+    else:
+        ctx.ok("C03.signers", "C03.signers:monotone", w.where(f), f"set operations: {set_calls}")
 
     # ---- verify_event ---------------------------------------------------------------------------
     ctx.rule("C03.verify", "verify_event: redacts a copy with rules.redaction; every server of servers_to_check_signatures(object, rules.signatures) "
